@@ -528,6 +528,49 @@ def rule_r7(F, rep, rid="C19.R7"):
     rep.floor(R, n, 18, "width x precision x conversion combinations")
 
 
+def rule_r8(F, rep):
+    R = rep.rule("C19.R8", "trailing zeros are trimmed only from a digit string that has a fraction: in every float renderer the "
+                 "`trim_end_matches('0')` of %g is unreachable when the precision it renders with is 0 (the string then has no "
+                 "decimal point and its trailing zeros are integer digits: `%g` of 100000 must stay 100000) — decided by walking "
+                 "the renderer with the precision parameter fixed to 0 and everything else unknown")
+    n = 0
+    fns = [f for f in F.fn_list if f.crate.name == "rsjsonnet_lang" and "::format::" in f.q and "{closure" not in f.q and not F.is_new_fn(f.q)]
+    for fn in fns:
+        body = fn.body
+
+        def trims(b):
+            return [bb for bb, t in b.calls() if (callee_name(t) or "") in ("<str>::trim_end_matches", "<str>::trim_end_matches::<char>")
+                    and len(t["xs"]) > 1 and t["xs"][1].get("k") == "const" and t["xs"][1].get("v") == ord("0")]
+        direct = trims(body)
+        # a trim inside a helper that did not exist on the reference tree belongs to its callers
+        helpers = [g for g in F.fn_list if g.crate.name == "rsjsonnet_lang" and F.is_new_fn(g.q) and trims(g.body)]
+        calls_helper = [bb for bb, t in body.calls() if any((t["f"].get("r") or "") == g.q for g in helpers)]
+        if not direct and not calls_helper:
+            continue
+        rep.fn(fn)
+        params = [i for i in range(1, body.argc + 1) if body.local_ty(i)["k"] == "prim" and body.local_ty(i)["s"] == "usize"]
+        hit_for = {}
+        for p in params:
+            def on_term(w, bb, t, env):
+                if t["k"] == "call" and (callee_name(t) or "").startswith("<str>::trim_end_matches") and len(t["xs"]) > 1 \
+                        and t["xs"][1].get("k") == "const" and t["xs"][1].get("v") == ord("0"):
+                    return (kwalk.STOP, ("trim",))
+                return None
+            w = kwalk.Walker(F, body, on_term=on_term, arith=True, max_states=200000)
+            outs = w.run(0, {str(p): 0})
+            rep.states += w.states_explored
+            hit_for[p] = any(("trim",) in marks for kind, marks, _ in outs)
+        n += 1
+        ok = any(not h for h in hit_for.values())
+        rep.ob(R, "%s|no-trim-at-precision-0" % fn.q.rsplit("::", 1)[-1], ok,
+               {"renderer": fn.q, "usize parameters": params, "trim reachable with that parameter = 0": {str(k): v for k, v in hit_for.items()}})
+        if not ok:
+            rep.violation(R, "%s|trims-integer-zeros" % fn.q, "%s can trim trailing zeros when its precision is 0: the digit string then has "
+                          "no decimal point, so significant zeros of the integer part are removed (`%%g` of 100000 prints 1)"
+                          % fn.q.rsplit("::", 1)[-1], fn.loc)
+    rep.floor(R, n, 2, "float renderers that trim zeros")
+
+
 def run(F, rep, tier):
     rep.attempt(rule_r1, F, rep)
     rep.attempt(units.rule_mix, F, rep, "C19.R2")
@@ -537,6 +580,7 @@ def run(F, rep, tier):
     rep.attempt(rule_r5, F, rep)
     rep.attempt(rule_r6, F, rep)
     rep.attempt(rule_r7, F, rep)
+    rep.attempt(rule_r8, F, rep)
     from . import casts
     rep.attempt(casts.rule, F, rep, "C06.R4")
     rep.assume("digit-exact rendering (rounding, exponent form, %g) is value-level and not decided")
